@@ -292,6 +292,19 @@ theorem accept_turnCount (w : World) (k : Nat) : turnCount (accept w k) ≤ turn
 
 theorem userIO_turnCount (w : World) (u : Nat) : turnCount (userIO w u) ≤ turnCount w := by
   unfold userIO
+  split
+  · unfold turnCount
+    apply Nat.le_of_eq
+    apply List.countP_congr
+    intro a _
+    cases a with
+    | none => rfl
+    | some x =>
+      simp only [holdsTurn, turnOf, get_upd]
+      split
+      · rename_i hx; subst hx; rfl
+      · rfl
+  unfold userIO0
   dsimp only
   split
   · unfold turnCount
